@@ -1,6 +1,7 @@
 package main
 
 import (
+	"regexp"
 	"fmt"
 	"go/constant"
 	"go/token"
@@ -64,6 +65,82 @@ func rotationOrder(c *Check) {
 		})
 	}
 	c.Floor("sort calls ordering the log names", 1, len(sites))
+	// the names that reach the sort: every rotation of the log is admitted.
+	// In the function that sorts, a name is appended to the list under
+	// conditions on the name that every "audit.log[.<digits>]" satisfies: a
+	// literal prefix test, or a constant pattern that accepts rotation
+	// numbers of any length
+	rxDir := RegexByName(p.RegexVars(pkgDir))
+	samples := []string{"audit.log", "audit.log.1", "audit.log.9", "audit.log.10", "audit.log.99", "audit.log.100", "audit.log.12345"}
+	for _, s := range sites {
+		sf := s.call.Parent()
+		r := NewResolver(p)
+		nap := 0
+		allInstrs(sf, func(in ssa.Instruction) {
+			cl, ok := in.(*ssa.Call)
+			if !ok {
+				return
+			}
+			bi, ok := cl.Call.Value.(*ssa.Builtin)
+			if !ok || bi.Name() != "append" || !dominatesInstr(cl, s.call) && !reachesInstr(cl, s.call) {
+				return
+			}
+			nap++
+			for _, ga := range guardAtoms(r, cl) {
+				if ga.Expanded {
+					continue
+				}
+				call, isCall := ga.V.(*ssa.Call)
+				if !isCall {
+					continue
+				}
+				sc := staticCallee(call.Common())
+				if sc == nil {
+					continue
+				}
+				rr := ga.R
+				if rr == nil {
+					rr = r
+				}
+				switch sc.String() {
+				case "strings.HasPrefix":
+					if k, okK := rr.Of(call.Call.Args[1]).ConstString(); okK && ga.Pos {
+						okAll := true
+						for _, smp := range samples {
+							if !strings.HasPrefix(smp, k) {
+								okAll = false
+							}
+						}
+						c.Cond(okAll, "rotation-order-numeric", "file-name filter in "+sf.Name()+": prefix \""+k+"\"", p.InstrPos(call), "every rotation name has this prefix", "the prefix required of a log file name excludes rotated logs: their lines are never delivered")
+					}
+				case "(*regexp.Regexp).MatchString":
+					g := regexGlobalOf(call.Call.Args[0])
+					rv := rxDir[g]
+					if rv == nil || rv.Tree == nil {
+						c.Unk("rotation-order-numeric", "file-name filter in "+sf.Name(), p.InstrPos(call), "names are filtered with a pattern that is not a package-level constant")
+						continue
+					}
+					if !ga.Pos {
+						continue
+					}
+					re, err := regexp.Compile(rv.Pattern)
+					if err != nil {
+						c.Unk("rotation-order-numeric", "file-name filter in "+sf.Name(), p.InstrPos(call), "pattern does not compile")
+						continue
+					}
+					miss := ""
+					for _, smp := range samples {
+						if !re.MatchString(smp) {
+							miss = smp
+							break
+						}
+					}
+					c.Cond(miss == "", "rotation-order-numeric", "file-name filter in "+sf.Name()+": pattern "+g, p.InstrPos(call), "accepts rotation numbers of any length", "the constant pattern "+g+" = "+rv.Pattern+" rejects the rotated log name \""+miss+"\": with that many rotated files the oldest are filtered out before the sort and their lines are never delivered")
+				}
+			}
+		})
+		c.Floor("appends building the list of log names", 1, nap)
+	}
 	for _, s := range sites {
 		name := "comparator of " + calleeName(s.call.Common()) + " in " + s.call.Parent().Name()
 		if s.fn == nil {
